@@ -10,7 +10,7 @@ where
         usize::try_from(n).map_err(|e| io::Error::new(io::ErrorKind::InvalidData, e))
     })?;
 
-    let mut intervals = Vec::with_capacity(interval_count);
+    let mut intervals = Vec::new();
 
     for _ in 0..interval_count {
         // ioff
